@@ -1,4 +1,4 @@
-HOOK_COMMITS = ['21cac9c', '70e05e0', 'cad1a19']   # filled by hand after each hook commit in /repo (git log --grep verifhook)
+HOOK_COMMITS = ['21cac9c', '70e05e0', 'cad1a19', 'fb5d827', 'd8140d7']   # filled by hand after each hook commit in /repo (git log --grep verifhook)
 
 NOT_APPLICABLE = {}
 
